@@ -29,6 +29,7 @@ import (
 	"strconv"
 	"strings"
 	"sync"
+	"unicode"
 
 	"github.com/emersion/go-message/textproto"
 	"github.com/emersion/go-sasl"
@@ -229,7 +230,7 @@ func (s *Session) startDelivery(ctx context.Context, from string, opts smtp.Mail
 	// used.
 	if !opts.UTF8 {
 		for _, ch := range from {
-			if ch > 128 {
+			if ch > unicode.MaxASCII {
 				return "", &exterrors.SMTPError{
 					Code:         550,
 					EnhancedCode: exterrors.EnhancedCode{5, 6, 7},
@@ -740,7 +741,7 @@ func (endp *Endpoint) wrapErr(msgId string, mangleUTF8 bool, command string, err
 		b := strings.Builder{}
 		b.Grow(len(res.Message))
 		for _, ch := range res.Message {
-			if ch > 128 {
+			if ch > unicode.MaxASCII {
 				b.WriteRune('?')
 			} else {
 				b.WriteRune(ch)
